@@ -4,6 +4,7 @@ package symx
 // deterministic: a run is a pure function of its decision sequence).
 
 import (
+	"go/token"
 	"go/types"
 )
 
@@ -20,6 +21,7 @@ type entry struct {
 }
 
 type hashmap struct {
+	nsym    int // live entries whose key has symbolic parts (found by comparison, not by hash)
 	keyType types.Type
 	list    []*entry        // insertion order (dead entries are compacted lazily)
 	table   map[int][]*entry // hash -> live entries
@@ -123,7 +125,36 @@ func (it *hashmapIter) next() tuple {
 	return []value{false, nil, nil}
 }
 
+// symHash marks entries whose key has symbolic parts.
+const symHash = -0x5eed
+
+// findSym looks a key up by comparison (forking on symbolic equalities) when the key or some key in
+// the map is not concrete.
+func (i *interpreter) findSym(m *hashmap, k value) *entry {
+	for _, e := range m.list {
+		if e.dead {
+			continue
+		}
+		if e.hash != symHash && !containsSym(k) {
+			if equals(m.keyType, k, e.key) {
+				return e
+			}
+			continue
+		}
+		if i.truth(i.binop(token.EQL, m.keyType, k, e.key)) {
+			return e
+		}
+	}
+	return nil
+}
+
 func (i *interpreter) mapLookup(m *hashmap, k value) (value, bool) {
+	if m != nil && (m.nsym > 0 || containsSym(k)) {
+		if e := i.findSym(m, k); e != nil {
+			return e.value, true
+		}
+		return nil, false
+	}
 	return m.lookup(k)
 }
 
@@ -132,9 +163,37 @@ func (i *interpreter) mapUpdate(m value, k, v value) {
 	if !ok || hm == nil {
 		panic(runtimeErrorString("assignment to entry in nil map"))
 	}
+	if hm.nsym > 0 || containsSym(k) {
+		if e := i.findSym(hm, k); e != nil {
+			e.value = v
+			return
+		}
+		if !containsSym(k) {
+			hm.insert(k, v) // no equal key present: a new concrete entry
+			return
+		}
+		hm.list = append(hm.list, &entry{key: k, value: v, hash: symHash})
+		hm.length++
+		hm.nsym++
+		return
+	}
 	hm.insert(k, v)
 }
 
 func (i *interpreter) mapDelete(m *hashmap, k value) {
+	if m != nil && (m.nsym > 0 || containsSym(k)) {
+		e := i.findSym(m, k)
+		if e == nil {
+			return
+		}
+		if e.hash == symHash {
+			e.dead = true
+			m.length--
+			m.nsym--
+			return
+		}
+		m.delete(e.key)
+		return
+	}
 	m.delete(k)
 }
